@@ -13,7 +13,7 @@ only decode errors on malformed framing.
 from ..leanclient import hx, unhx
 from . import c15_vals as V
 
-TRANSLATORS = ["exttable"]
+TRANSLATORS = ["exttable", "codec"]
 
 MANIFEST = {
     "text": "Proof: one format-description type Fmt with generic encode/decode (lean/TlsModel/Fmt.lean); proved once by induction "
@@ -24,10 +24,17 @@ MANIFEST = {
             "decode_lenPref_char, decode_truncated, decode_trailing_rejected, decode_inner_exceeds_outer, decode_declared_past_end); "
             "Writer/Parser of utils/codec.py modelled method by method (writer_add_overflow, parser_get_bounds, ...). Every tlslite "
             "message/extension/header format (lean/TlsModel/Msgs.lean, extension dispatch dictionaries regenerated from the source) is an "
-            "instance (msgs_table_wf, msgs_ext_wf, msgs_extBody_wf by evaluation). Tie: differential correspondence of every real class "
+            "instance (msgs_table_wf, msgs_ext_wf, msgs_extBody_wf by evaluation). Regeneration: translate/gen_codec.py re-translates the "
+            "Writer and Parser methods of codec.py and HandshakeMsg.postWrite statement by statement into the Python-runtime model "
+            "(PyInt.lean + PyObj.lean); gen_*_eq prove each regenerated method equal to the hand model's primitive for all states and "
+            "natural arguments, gen_* corollaries restate overflow / bounds / round trip / truncation on the regenerated methods. "
+            "Tie: differential correspondence of every real class "
             "with the model on generated values and on all truncations / length perturbations / inserted junk / byte changes of their "
             "encodings; direct round-trip and framing oracle on the real classes.",
-    "note": "Trusted: Lean kernel (propext, Classical.choice, Quot.sound), the exttable translator, the correspondence harness. "
+    "note": "Trusted: Lean kernel (propext, Classical.choice, Quot.sound), the exttable and codec translators with the Python-runtime "
+            "model TlsModel/PyInt.lean + PyObj.lean (its primitives and the regenerated methods are run against the interpreter, "
+            "streams gen-writer-prims / gen-parser-prims / gen-postWrite, negative ints included), the correspondence harness. "
+            "addVarTupleSeq and getVarTupleList are regenerated and tied by evaluation and correspondence only. "
             "X.509 / SPKI / OCSP bodies are opaque byte strings (ASN.1 parsers stubbed during the run); CompressedCertificate's "
             "decompression, SSLv2 messages and RecordHeader2 are checked by the round-trip oracle only, not modelled. Negative ints "
             "are outside the model.",
@@ -660,6 +667,37 @@ def writer_prims(run):
             ctx.compared()
             if m != res:
                 ctx.disagree("writer-prims", line[:200], m[:200], res[:200])
+        # the same calls through the code regenerated from codec.py (Tls.Codec.Gen), where every
+        # ValueError is just `valueError`; plus negative ints, which only the regenerated code models
+        gen_cases = [("g" + line, res if res.startswith("ok ") else "valueError") for line, res in cases]
+        for n in (1, 2, 3):
+            for x in (-1, -256, -(256 ** n)):
+                for line, fn in (("gw add aa %d %d" % (x, n), lambda w, x=x, n=n: w.add(x, n)),
+                                 ("gw one aa %d" % x, lambda w, x=x: w.addOne(x)),
+                                 ("gw two aa %d" % x, lambda w, x=x: w.addTwo(x)),
+                                 ("gw three aa %d" % x, lambda w, x=x: w.addThree(x)),
+                                 ("gw four aa %d" % x, lambda w, x=x: w.addFour(x)),
+                                 ("gw fixseq aa %d 1,%d" % (n, x), lambda w, x=x, n=n: w.addFixSeq([1, x], n)),
+                                 ("gw varseq aa %d 1 %d" % (n, x), lambda w, x=x, n=n: w.addVarSeq([x], n, 1))):
+                    w = Writer()
+                    w.bytes = bytearray(b"\xaa")
+                    try:
+                        fn(w)
+                        res = "ok " + hx(bytes(w.bytes))
+                        ctx.violation("c15:Writer:negative-accepted", "Writer accepted a negative value: %s -> %s" % (line, res),
+                                      {"stage": "writer", "line": line, "defect": "negative-accepted"})
+                    except ValueError:
+                        res = "valueError"
+                    except Exception as e:  # noqa
+                        res = "exception:" + type(e).__name__
+                    ctx.case(key=("gw", line), sample=None)
+                    gen_cases.append((line, res))
+        out = run.ask_many([c[0] for c in gen_cases])
+        for (line, res), m in zip(gen_cases, out):
+            ctx.compared()
+            ctx.count("gen-writer-prim")
+            if m != res:
+                ctx.disagree("gen-writer-prims", line[:200], m[:200], res[:200])
 
 
 PERR = {"Read past end of buffer": "err:readPast", "Encoded length not a multiple of element length": "err:notMultiple",
@@ -756,6 +794,16 @@ def parser_prims(run):
             ctx.compared()
             if m != r:
                 ctx.disagree("parser-prims", line, m, r)
+        # the same scripts through the code regenerated from codec.py (Tls.Codec.Gen)
+        gmap = {"err:readPast": "err:decodeError", "err:notMultiple": "err:decodeError", "err:underOver": "err:decodeError",
+                "exception:ZeroDivisionError": "err:zeroDivision"}
+        out = run.ask_many(["g" + l for l in lines])
+        for line, r, m in zip(lines, reals, out):
+            ctx.compared()
+            ctx.count("gen-parser-script")
+            want = "|".join(gmap.get(x, x) for x in r.split("|"))
+            if m != want:
+                ctx.disagree("gen-parser-prims", "g" + line, m, want)
 
 
 # ------------------------------------------------------------------ glue and unmodelled classes (oracle only)
@@ -1264,6 +1312,71 @@ def reuse_streams(r):
                      % (V.render(val)[:160], got.hex()[:120]), dict(rep, got=got.hex()[:4000]))
 
 
+def hs_header(r):
+    """HandshakeMsg.postWrite: type byte and 24-bit length never mix - bodies of 2^24-1 bytes (fits) and 2^24
+    bytes (must raise), directly and through message classes whose body can be that long; the small cases also
+    through the regenerated postWrite"""
+    from tlslite import messages as M
+    from tlslite.utils.codec import Writer, Parser
+    ctx = r.ctx
+    big = (1 << 24)
+    lines, reals = [], []
+    for t, n in [(0, 0), (1, 1), (20, 5), (255, 300), (11, 65535), (11, 65536), (256, 3), (22, big - 1), (22, big), (22, big + 7)]:
+        w = Writer()
+        w.bytes = bytearray(b"\x5c") * n
+        ctx.case(key=("postWrite", t, n), sample=None)
+        ctx.count("hs-header")
+        rep = {"stage": "hs-header", "type": t, "body_len": n}
+        try:
+            b = bytes(M.HandshakeMsg(t).postWrite(w))
+            res = "ok"
+        except ValueError:
+            b, res = None, "valueError"
+        except Exception as e:  # noqa
+            b, res = None, "exception:" + type(e).__name__
+        fits = t < 256 and n < big
+        if fits != (res == "ok"):
+            ctx.violation("c15:HandshakeMsg:header-" + ("wrap" if res == "ok" else res.replace(":", "-")),
+                          "HandshakeMsg(%d).postWrite of a %d-byte body gave %s%s" % (t, n, res, "" if b is None else " header " + b[:4].hex()),
+                          dict(rep, defect="header"))
+        elif b is not None and (b[0] != t or int.from_bytes(b[1:4], "big") != n or len(b) != n + 4):
+            ctx.violation("c15:HandshakeMsg:header-wrong", "HandshakeMsg(%d).postWrite of a %d-byte body wrote header %s"
+                          % (t, n, b[:4].hex()), dict(rep, defect="header"))
+        if n <= 70000:
+            lines.append("gpw %d %s" % (t, hx(b"\x5c" * n)))
+            reals.append("ok " + hx(b) if b is not None else res)
+    # through real message classes (body = everything after the 4-byte header)
+    for n in (big - 1, big):
+        for cls, mk in (("ClientKeyExchange[rsa,(3, 0)]", lambda n=n: M.ClientKeyExchange(r.real.suites["rsa"], (3, 0)).createRSA(bytearray(n))),
+                        ("CertificateStatus", lambda n=n: M.CertificateStatus().create(1, bytearray(n - 4))),
+                        ("NewSessionTicket1_0", lambda n=n: M.NewSessionTicket1_0().create(7, bytearray(min(n - 6, 65535)) if n < big else bytearray(65535)))):
+            if cls == "NewSessionTicket1_0":
+                continue                         # its body cannot reach 2^24 bytes (16-bit ticket length)
+            ctx.case(key=("hs-big", cls, n), sample=None)
+            ctx.count("hs-header")
+            rep = {"stage": "hs-header", "class": cls, "body_len": n}
+            try:
+                with time_limit(30.0):
+                    b = bytes(mk().write())
+                res = "ok"
+            except ValueError:
+                b, res = None, "valueError"
+            except Exception as e:  # noqa
+                b, res = None, "exception:" + type(e).__name__
+            if (n < big) != (res == "ok"):
+                ctx.violation("c15:%s:header-%s" % (cls, "wrap" if res == "ok" else res.replace(":", "-")),
+                              "%s.write() with a %d-byte body gave %s%s" % (cls, n, res, "" if b is None else " header " + b[:4].hex()),
+                              dict(rep, defect="header"))
+            elif b is not None and (int.from_bytes(b[1:4], "big") != n or len(b) != n + 4):
+                ctx.violation("c15:%s:header-wrong" % cls, "%s.write() with a %d-byte body wrote header %s" % (cls, n, b[:4].hex()),
+                              dict(rep, defect="header"))
+    if r.lc is not None:
+        for line, want, m in zip(lines, reals, r.ask_many(lines)):
+            ctx.compared()
+            if m != want:
+                ctx.disagree("gen-postWrite", line[:120], m[:120], want[:120])
+
+
 def real_asn1(r):
     """the certificate-carrying formats once more with the real ASN.1 parsers (no stubs): a real
     X.509 certificate and a real SubjectPublicKeyInfo from the repository's test data"""
@@ -1371,12 +1484,16 @@ def run(ctx):
         glue_and_legacy(r)
         create_streams(r)
         reuse_streams(r)
+    hs_header(r)
     real_asn1(r)
     writer_prims(r)
     parser_prims(r)
     if r.lc is None:
         ctx.violation("obligation:driver", "the Lean driver drv_c15 did not build: no correspondence was checked",
                       {"stage": "obligation", "theorem": "drv_c15"}, found=False)
+    ctx.extra["load_independence"] = ("no stream of this check is behind a wall-clock budget: every directed family (boundaries, "
+                                      "truncations, length perturbations, create/reuse streams, handshake header sizes, Writer/Parser "
+                                      "primitives, regenerated-code streams) and the random bulk run to completion on every run")
     ctx.extra["formats_checked"] = len(r.trees)
     ctx.extra["non_framing_observations"] = {k: v for k, v in sorted(r.info.items())[:40]}
     ctx.extra["disagreements_explained_by_reported_violations"] = r.explained
@@ -1393,7 +1510,7 @@ def replay(ctx, rep):
         return bool(ctx.violations and any(v["key"] == rep.get("key") or not v["found"] for v in ctx.violations))
     r = Run(ctx)
     before = len(ctx.violations)
-    if inp.get("stage") in ("writer", "parser", "legacy", "create", "reuse"):
+    if inp.get("stage") in ("writer", "parser", "legacy", "create", "reuse", "hs-header"):
         print("replay of stage %r: re-running that part of the check" % inp.get("stage"))
         with opaque_asn1():
             r.load_trees()
@@ -1405,6 +1522,8 @@ def replay(ctx, rep):
                 create_streams(r)
             elif inp.get("stage") == "reuse":
                 reuse_streams(r)
+            elif inp.get("stage") == "hs-header":
+                hs_header(r)
             else:
                 glue_and_legacy(r)
         return any(v["key"] == rep.get("key") for v in ctx.violations) or len(ctx.violations) > before
